@@ -267,3 +267,22 @@ def json_equal(a, b):
     if isinstance(a, list):
         return len(a) == len(b) and all(json_equal(x, y) for x, y in zip(a, b))
     return a == b
+
+
+def gen_doc_meta(rng, ints_only=False):
+    """Metadata using the keys the specification documents for DiffX / change / file sections."""
+    n = (lambda: rng.choice([0, 0, 1, 1, 2, 3, 10])) if ints_only else (lambda: rng.choice([0, 0, 1, 1, 2, 3, 10, -1, '1', None, 1.0, True]))
+    d = {}
+    if rng.random() < 0.8:
+        d['stats'] = {k: n() for k in rng.sample(['changes', 'files', 'insertions', 'deletions', 'lines changed', 'total lines',
+                                                  'similarity', 'special'], rng.randint(1, 5))}
+        if 'similarity' in d['stats']:
+            d['stats']['similarity'] = rng.choice(['100%', '100.0%', '0%', '98.89%', '100', 100, '%'])
+    for k, vals in [('path', ['/src/a.c', {'old': 'a', 'new': 'b'}, '']), ('revision', ['abc123', {'old': '1', 'new': '2'}, 7]),
+                    ('op', ['create', 'delete', 'modify', 'move', 'copy', 'move-modify', 'copy-modify', 'nonsense']),
+                    ('type', ['file', 'directory', 'symlink']), ('id', ['a1b2', 12]), ('author', ['A <a@example.com>']),
+                    ('date', ['2021-06-01T13:12:06-07:00']), ('parent ids', [[], ['a', 'b']]), ('unix file mode', ['100644', {'old': '0100644', 'new': '0100755'}]),
+                    ('scm', ['git']), ('repository id', ['x'])]:
+        if rng.random() < 0.3:
+            d[k] = rng.choice(vals)
+    return d or {'stats': {'files': 0}}
